@@ -133,6 +133,7 @@ theorem showTables_ok (rest : List Tok) (f : Nat) :
   kw_simp
 
 /-! ### SET k = v -/
+theorem src_cfgTok (s : String) : (cfgTok s).src = s := src_single s _
 theorem length_cfgTail (ps : List (Bool × String)) : ps.length ≤ (cfgTail ps).length := by
   induction ps with
   | nil => simp [cfgTail]
@@ -157,16 +158,19 @@ theorem cfgLoop_ok (fol : List Tok) (hd : searchStr fol "." = false) (hm : searc
     · simp only [cfgTail, cfgJoin, Bool.false_eq_true, if_false] at this ⊢
       rw [configStringLoop]
       kw_simp
+      simp only [src_cfgTok]
       exact this
     · simp only [cfgTail, cfgJoin, if_true] at this ⊢
       rw [configStringLoop]
       kw_simp
+      simp only [src_cfgTok]
       exact this
 theorem cfg_ok (s : String) (hs : cfgOK s = true) (fol : List Tok) (hd : searchStr fol "." = false) (hm : searchStr fol "-" = false) :
     pConfigString (toksCfg s ++ fol) = .ok (s, fol) := by
   simp only [cfgOK, beq_iff_eq] at hs
   unfold pConfigString toksCfg
   kw_simp
+  simp only [src_cfgTok]
   have := cfgLoop_ok fol hd hm (cfgSplit s).2 (cfgSplit s).1 ((cfgTail (cfgSplit s).2 ++ fol).length + 1) (by
     have := length_cfgTail (cfgSplit s).2
     simp only [List.length_append]; omega)
